@@ -642,11 +642,15 @@ fn structural_wide(seed: u64) -> serde_json::Value {
         let a: Vec<u128> = (0..6).map(|i| red((1u128 << 100) + 7 + i as u128 * ((1u128 << 70) + 1) + ((rng.next() as u128) << 64))).collect();   // shape [2,3]
         let b: Vec<u128> = (0..6).map(|i| red(u128::MAX - 5 - i as u128 * ((1u128 << 65) + 3))).collect();
         let ta = array_type(vec![2, 3], st);
+        let z: Vec<u128> = (0..3).map(|i| red((1u128 << 90) + 11 * i as u128 + 1)).collect();   // shape [3]
+        let tz = array_type(vec![3], st);
         let mk = |v: &Vec<u128>| Value::from_flattened_array(v, st).unwrap();
         let cases: Vec<(&str, Box<dyn Fn(&Graph, &[ciphercore_base::graphs::Node]) -> Result<ciphercore_base::graphs::Node>>, Vec<u128>, Type)> = vec![
             ("Get([1])", Box::new(|_g, i| i[0].get(vec![1])), a[3..6].to_vec(), array_type(vec![3], st)),
             ("GetSlice([.., 0:3:2])", Box::new(|_g, i| i[0].get_slice(vec![SliceElement::Ellipsis, SliceElement::SubArray(Some(0), Some(3), Some(2))])), vec![a[0], a[2], a[3], a[5]], array_type(vec![2, 2], st)),
             ("Stack([a, b], [2])", Box::new(|g, i| g.stack(vec![i[0].clone(), i[1].clone()], vec![2])), [a.clone(), b.clone()].concat(), array_type(vec![2, 2, 3], st)),
+            ("Stack([a, z], [2]) with z of shape [3] broadcast to [2,3]", Box::new(|g, i| g.stack(vec![i[0].clone(), i[2].clone()], vec![2])), [a.clone(), z.clone(), z.clone()].concat(), array_type(vec![2, 2, 3], st)),
+            ("Concatenate([a, b], 1)", Box::new(|g, i| g.concatenate(vec![i[0].clone(), i[1].clone()], 1)), [a[0..3].to_vec(), b[0..3].to_vec(), a[3..6].to_vec(), b[3..6].to_vec()].concat(), array_type(vec![2, 6], st)),
             ("Concatenate([a, b], 0)", Box::new(|g, i| g.concatenate(vec![i[0].clone(), i[1].clone()], 0)), [a.clone(), b.clone()].concat(), array_type(vec![4, 3], st)),
             ("VectorToArray(ArrayToVector(a))", Box::new(|_g, i| i[0].array_to_vector()?.vector_to_array()), a.clone(), array_type(vec![2, 3], st)),
             ("PermuteAxes(a, [1,0])", Box::new(|_g, i| i[0].permute_axes(vec![1, 0])), vec![a[0], a[3], a[1], a[4], a[2], a[5]], array_type(vec![3, 2], st)),
@@ -655,8 +659,8 @@ fn structural_wide(seed: u64) -> serde_json::Value {
         for (name, build, want, rt) in cases {
             tried += 1;
             let r = catch_unwind(AssertUnwindSafe(|| -> Result<Vec<u128>> {
-                let c = simple_context(|g| { let x = g.input(ta.clone())?; let y = g.input(ta.clone())?; build(g, &[x, y]) })?;
-                let out = random_evaluate(c.get_main_graph()?, vec![mk(&a), mk(&b)])?;
+                let c = simple_context(|g| { let x = g.input(ta.clone())?; let y = g.input(ta.clone())?; let w = g.input(tz.clone())?; build(g, &[x, y, w]) })?;
+                let out = random_evaluate(c.get_main_graph()?, vec![mk(&a), mk(&b), mk(&z)])?;
                 Ok(out.to_flattened_array_u128(rt.clone())?.into_iter().map(red).collect())
             }));
             let got = match r { Ok(Ok(v)) => v, Ok(Err(e)) => return json!({"found": true, "routine": "structural_wide", "property": "C10", "input": {"op": name, "scalar_type": format!("{}", st)}, "observed": format!("error: {}", e)}),
